@@ -171,6 +171,8 @@ def search(ctx, broken, corr_failures):
 def explains(broken_item, found):
     keys = " ".join(v.key for v in found)
     bl = broken_item.lower()
+    if "translator unit flowbch" in bl:
+        return any(k in keys for k in ("logv", "compose_svfs", ":batch:"))
     if "logv" in bl:
         return "logv" in keys
     if "bch" in bl or "compose_svfs" in bl:
